@@ -181,3 +181,27 @@ Lemma wrap_mul_r2 t t' x y : bits t <= bits t' -> wrap t (x * wrap t' y) = wrap 
 Proof. intros H. rewrite <- wrap_mul_r, (wrap_wrap t t' y H), wrap_mul_r. reflexivity. Qed.
 Lemma wrap_neg2 t t' x : bits t <= bits t' -> wrap t (- wrap t' x) = wrap t (- x).
 Proof. intros H. rewrite <- wrap_neg, (wrap_wrap t t' x H), wrap_neg. reflexivity. Qed.
+
+(* exhaustive check of a boolean predicate on [lo, lo + p) by halving; used
+   for finite-domain lemmas closed by vm_compute *)
+Fixpoint allb (p : positive) (lo : Z) (f : Z -> bool) : bool :=
+  match p with
+  | xH => f lo
+  | xO q => allb q lo f && allb q (lo + Zpos q) f
+  | xI q => f lo && (allb q (lo + 1) f && allb q (lo + 1 + Zpos q) f)
+  end.
+
+Lemma allb_spec p : forall lo f, allb p lo f = true -> forall x, lo <= x < lo + Zpos p -> f x = true.
+Proof.
+  induction p as [q IH|q IH|]; intros lo f H x Hx; cbn [allb] in H.
+  - apply andb_prop in H. destruct H as [H0 H]. apply andb_prop in H. destruct H as [H1 H2].
+    destruct (Z.eq_dec x lo) as [->|Hne]; [exact H0|].
+    destruct (Z_lt_ge_dec x (lo + 1 + Zpos q)).
+    + apply (IH _ _ H1). lia.
+    + apply (IH _ _ H2). lia.
+  - apply andb_prop in H. destruct H as [H1 H2].
+    destruct (Z_lt_ge_dec x (lo + Zpos q)).
+    + apply (IH _ _ H1). lia.
+    + apply (IH _ _ H2). lia.
+  - assert (x = lo) by lia. subst. exact H.
+Qed.
